@@ -6,7 +6,7 @@ use crate::rng::Rng;
 use crate::term::*;
 
 /// (source text, expected message, expected error code, expected first line of the trace)
-pub const SOURCES: [(&str, &str, &str, &str); 12] = [
+pub const SOURCES: [(&str, &str, &str, &str); 13] = [
     ("error boom", "boom", "NONE", "boom"),
     ("error {two words}", "two words", "NONE", "two words"),
     ("throw MYCODE thrown", "thrown", "MYCODE", "thrown"),
@@ -19,9 +19,10 @@ pub const SOURCES: [(&str, &str, &str, &str); 12] = [
     ("pa2 1", "wrong # args: should be \"pa2 a b\"", "NONE", "wrong # args: should be \"pa2 a b\""),
     ("rce", "rmsg", "NONE", "rmsg"),
     ("rcei", "imsg", "ECODE", "given info"),
+    ("rcec", "cmsg", "ONLYCODE", "cmsg"),
 ];
 
-pub const PRELUDE: &str = "proc pa2 {a b} {}; set nonint abc; proc rce {} {return -code error rmsg}; proc rcei {} {return -code error -errorcode ECODE -errorinfo {given info} imsg}";
+pub const PRELUDE: &str = "proc pa2 {a b} {}; set nonint abc; proc rce {} {return -code error rmsg}; proc rcei {} {return -code error -errorcode ECODE -errorinfo {given info} imsg}; proc rcec {} {return -code error -errorcode ONLYCODE cmsg}";
 
 const FRAMES: [&str; 4] = ["proc", "if", "foreach", "while"];
 
@@ -75,7 +76,7 @@ pub fn gen(tier: &str, seed: u64) -> Gen {
             }
         }
     }
-    (cases, vec![(format!("12 error sources x every stack of proc/if/foreach/while frames of depth<={} x 5 observation variants (host, catch, rethrow x2, quiet)", maxdepth), n, thorough)])
+    (cases, vec![(format!("13 error sources x every stack of proc/if/foreach/while frames of depth<={} x 5 observation variants (host, catch, rethrow x2, quiet)", maxdepth), n, thorough)])
 }
 
 fn host_obs(interp: &mut molt::Interp, script: &str) -> Term {
@@ -109,7 +110,7 @@ pub fn run(case: &Term) -> Term {
         _ => {
             // quiet: after the failure, evaluations that raise no error leave the record alone
             let a = host_obs(&mut interp, &f);
-            let b = host_obs(&mut interp, "set x 1; catch {break}; catch {return 5}; foreach i {1 2} {continue}; proc qq {} {return -code 7 z}; catch {qq}; expr {1 && 0}");
+            let b = host_obs(&mut interp, "set x 1; catch {break}; catch {return 5}; foreach i {1 2} {continue}; proc qq {} {return -code 7 z}; catch {qq}; catch {return -code error -errorcode LATER later}; catch {return -level 2 -code error -errorcode L2 -errorinfo {later info} l2}; expr {1 && 0}");
             tl(vec![a, b])
         }
     };
